@@ -191,10 +191,16 @@ func hook(point string, a ...interface{}) {
 			return
 		}
 		hit(point)
+		lp := 0 // the connection's local port tells the connections of one run apart
+		if c != nil {
+			if la, ok := c.LocalAddr().(*net.TCPAddr); ok {
+				lp = la.Port
+			}
+		}
 		if point == "client.close" {
-			st.rec.emit("ConnClosed")
+			st.rec.emit("ConnClosed", "lp", lp)
 		} else {
-			st.rec.emit("Dialed")
+			st.rec.emit("Dialed", "lp", lp)
 		}
 	case "client.send.dequeued", "client.send.writeError":
 		c, _ := a[0].(net.Conn)
